@@ -697,6 +697,8 @@ func Handle(in []byte) any {
 		runKillHashing(&sc, out)
 	case "tworeaders":
 		runTwoReaders(&sc, out)
+	case "twoblocked":
+		runTwoBlocked(&sc, out)
 	case "reader":
 		runReader(&sc, out)
 	default:
